@@ -38,7 +38,9 @@ CONSTANTS MaxN,        \* cluster sizes 1..MaxN
           Shapes,      \* subset of {"scatter", "gather"}
           MaxFaults,   \* at most this many faulted fragments (remote or local) per query
           Batches,     \* record batches in every shard's payload
-          Mutants      \* subset of {"none", "short_stream"} \cup MutantNames
+          Mutants,     \* subset of {"none", "short_stream"} \cup MutantNames
+          MutMaxN,     \* cluster sizes explored for the non-ideal designs
+          MutShapes    \* shapes explored for the non-ideal designs
 
 VARIABLES cfg,     \* [shape, n, self (0: the initiator is not a participant), T, k, mut]
           pc,      \* "run" | "done"
@@ -64,6 +66,7 @@ Configs ==
       /\ c.self <= c.n
       /\ c.T = (IF c.shape = "gather" THEN 2 ELSE 1)
       /\ c.shape = "gather" => c.n <= GatherMaxN
+      /\ c.mut # "none" => (c.n <= MutMaxN /\ c.shape \in MutShapes)
       /\ \A t \in TT : c.k[t] <= c.n /\ (t > c.T => c.k[t] = 0)}
 
 NFaults == Cardinality({<<t, i>> \in TT \X Nodes : frag[t][i] \in FaultKinds}) + Cardinality({t \in TT : loc[t] = "err"})
@@ -158,13 +161,21 @@ Finish ==
 Done == pc = "done" /\ UNCHANGED vars
 
 Next ==
-  \/ /\ pc = "run"
-     /\ \E t \in TT :
-          \/ FanOut(t) \/ LocalOk(t) \/ LocalErr(t) \/ Collect(t)
-          \/ \E i \in Nodes :
-               \/ ReplyOk(t, i) \/ TransportError(t, i) \/ HttpError(t, i) \/ DigestMismatch(t, i)
-               \/ CutInHead(t, i) \/ CutAtTerminator(t, i) \/ CutInMessage(t, i) \/ CutInMarker(t, i)
-               \/ CutAtBoundary(t, i) \/ CutInEos(t, i) \/ Corrupt(t, i)
+  \/ \E t \in TT : FanOut(t)
+  \/ \E t \in TT : LocalOk(t)
+  \/ \E t \in TT : LocalErr(t)
+  \/ \E t \in TT : Collect(t)
+  \/ \E t \in TT, i \in Nodes : ReplyOk(t, i)
+  \/ \E t \in TT, i \in Nodes : TransportError(t, i)
+  \/ \E t \in TT, i \in Nodes : HttpError(t, i)
+  \/ \E t \in TT, i \in Nodes : DigestMismatch(t, i)
+  \/ \E t \in TT, i \in Nodes : CutInHead(t, i)
+  \/ \E t \in TT, i \in Nodes : CutAtTerminator(t, i)
+  \/ \E t \in TT, i \in Nodes : CutInMessage(t, i)
+  \/ \E t \in TT, i \in Nodes : CutInMarker(t, i)
+  \/ \E t \in TT, i \in Nodes : CutAtBoundary(t, i)
+  \/ \E t \in TT, i \in Nodes : CutInEos(t, i)
+  \/ \E t \in TT, i \in Nodes : Corrupt(t, i)
   \/ Finish
   \/ Done
 
